@@ -98,10 +98,10 @@ def random_config(rng, closed=True):
     for _ in range(rng.randint(1, 3)):
         o = rng.choice([1, 1, 1, 2])
         if rng.random() < 0.5:
-            lab = rng.choice(['', '', 'A', 'B'])
-            fams.append([('$', lab, o), ('$', rng.choice(['', lab, 'C']), o)])
+            lab = rng.choice(['', '', 'A', 'B', 'A2', 'b1'])
+            fams.append([('$', lab, o), ('$', rng.choice(['', lab, 'C', 'C6']), o)])
         else:
-            lab = rng.choice(['', 'A', 'x'])
+            lab = rng.choice(['', 'A', 'x', 'E1'])
             fams.append([('>', lab, o), ('<', lab, o)])
     frag_descs = [[] for _ in range(nfrag)]
     for fam in fams:
@@ -143,14 +143,15 @@ def random_config(rng, closed=True):
         if text is None:
             return None
         frags['TER'] = text
-        terminal = [tkind + tlab + (str(o) if o != 1 else '')]
+        terminal = [tkind + tlab + (str(o) if (o != 1 or tlab[-1:].isdigit()) else '')]
         all_d = sorted(set(all_d) | {norm(tkind + tlab + str(o))})
     # reactivities
     poly = {}
     mode = rng.choice(['none', 'uniform', 'zeros', 'zeros'])
     if mode != 'none':
         for d in all_d:
-            poly[d if rng.random() < 0.5 or not d.endswith('1') else d[:-1]] = 1.0 if mode == 'uniform' else rng.choice([0.0, 0.2, 1.0])
+            short_ok = d.endswith('1') and not d[:-1][-1:].isdigit()
+            poly[d[:-1] if (short_ok and rng.random() < 0.5) else d] = 1.0 if mode == 'uniform' else rng.choice([0.0, 0.2, 1.0])
         # keep the self-propagating family alive
         for (k, l, o) in fams[0]:
             key = norm(k + l + str(o))
